@@ -2,6 +2,7 @@
 
 from __future__ import annotations
 
+import importlib
 import random
 import sys
 
@@ -102,7 +103,7 @@ def run_case(case):
     obs = {k: 0 for k in REQUIRED_OBS}
     unit_keys, nontrivial = [], []
     cover = {"forms": {}, "outcomes": {}}
-    files = {"modules/mymod.py": "VALUE = 41\ndef f():\n    return VALUE + 1\n", "modules/json.py": "SHADOW = 'pyscript json module'\n", "modules/pkg/__init__.py": "from .sub import SUBV\nTOP = 1\n", "modules/pkg/sub.py": "SUBV = 7\n", "apps/myapp/__init__.py": "from . import helper\nX = helper.H\n", "apps/myapp/helper.py": "H = 5\n"}
+    files = {"modules/mymod.py": "VALUE = 41\ndef f():\n    return VALUE + 1\n", "modules/stubstore.py": "def f():\n    return 77\n", "modules/json.py": "SHADOW = 'pyscript json module'\n", "modules/pkg/__init__.py": "from .sub import SUBV\nTOP = 1\n", "modules/pkg/sub.py": "SUBV = 7\n", "apps/myapp/__init__.py": "from . import helper\nX = helper.H\n", "apps/myapp/helper.py": "H = 5\n"}
     config = {"allow_all_imports": bool(case.get("allow_all", False)), "apps": {"myapp": {}}}
     if part in ("allow_all",):
         config["allow_all_imports"] = True
@@ -187,7 +188,9 @@ def run_case(case):
                     unit_keys.append(src)
                     nontrivial.append(src)
                     top = name.split(".")[0]
-                    if ps["exc"] != "ModuleNotFoundError" or top in ps["globals"]:
+                    # (`from re import *` legitimately binds `enum`, an attribute of re: only a binding the partner cannot explain counts)
+                    explained = src.startswith("from ") and hasattr(importlib.import_module(ok), top)
+                    if ps["exc"] != "ModuleNotFoundError" or (top in ps["globals"] and not explained):
                         viol.append({"mech": "disallowed_import_succeeded", "msg": f"`{src}` gave {ps['exc']}, globals {sorted(ps['globals'])[:6]}", "replay_case": dict(case)})
                     else:
                         obs["disallowed_rejected"] += 1
@@ -214,6 +217,17 @@ def run_case(case):
                 nontrivial.append(src + str(case["allow_all"]))
                 if ps["exc"] is not None or ps["globals"].get("r") != want["r"]:
                     viol.append({"mech": "pyscript_module_import_failed", "msg": f"allow_all={case['allow_all']} `{src}`: exc={ps['exc']} ({ps['exc_obj']!r}) r={ps['globals'].get('r')}", "replay_case": dict(case)})
+            # names that merely begin with "stubs" are ordinary modules: forbidden unless they are pyscript modules
+            for src, want in (("from stubs_extra import x", "ModuleNotFoundError"), ("from stubsxyz.sub import y", "ModuleNotFoundError"), ("import stubs_extra", "ModuleNotFoundError")):
+                ps = await interp.run_pyscript(src)
+                obs["statements_checked"] += 1
+                obs["stubs_imports"] += 1
+                if not case["allow_all"] and ps["exc"] != want:
+                    viol.append({"mech": "disallowed_import_succeeded", "msg": f"`{src}` gave {ps['exc']} (only 'stubs' and 'stubs.*' are exempt)", "replay_case": dict(case)})
+            ps = await interp.run_pyscript("from stubstore import f\nr = f()")
+            obs["statements_checked"] += 1
+            if ps["exc"] is not None or ps["globals"].get("r") != 77:
+                viol.append({"mech": "pyscript_module_import_failed", "msg": f"`from stubstore import f` (a pyscript module whose name begins with 'stubs'): exc={ps['exc']} r={ps['globals'].get('r')}", "replay_case": dict(case)})
             for src in ("import stubs", "import stubs.x", "from stubs.x import y as z"):
                 ps = await interp.run_pyscript(src)
                 obs["statements_checked"] += 1
@@ -229,7 +243,18 @@ def run_case(case):
                     await check_stmt(f"exec({src!r})", binds, True, f"all_exec_{form}:{name}", cpython_oracle=False)
         elif part == "builtins":
             for b in ("open", "compile", "input", "breakpoint", "memoryview"):
-                for src in (f"r = {b}", f"r = [{b}]", f"def f():\n    return {b}\nr = f()", f"r = (lambda: {b})" if False else f"r = eval('{b}')"):
+                for src in (
+                    f"r = {b}",
+                    f"r = [{b}]",
+                    f"def f():\n    return {b}\nr = f()",
+                    f"r = eval('{b}')",
+                    # every scope in which a name can be looked up: declared global / nonlocal-free nested / class body / comprehension
+                    f"def f():\n    global {b}\n    return {b}\nr = f()",
+                    f"def f():\n    def g():\n        return {b}\n    return g()\nr = f()",
+                    f"class K:\n    v = {b}\nr = K.v",
+                    f"r = [{b} for _ in range(1)]",
+                    f"exec('def f():\\n    global {b}\\n    return {b}\\nr = f()')",
+                ):
                     ps = await interp.run_pyscript(src)
                     obs["builtins_checked"] += 1
                     unit_keys.append(src)
